@@ -444,6 +444,8 @@ class PE:
                 return env[e.id]
             if e.id in ('True', 'False', 'None'):
                 return {'True': True, 'False': False, 'None': None}[e.id]
+            if e.id in self.atoms:
+                return self.atoms[e.id]         # a rule may pin a module constant (e.g. the guard epsilon -> 0)
             mod = func.mod
             if e.id in mod.globals:
                 g = mod.globals[e.id]
